@@ -15,29 +15,57 @@ theorem translator_complete : Gen.missing = [] := by decide
 
 theorem skeleton_unchanged :
     (Gen.Skel.conds_streamHTTP_readMsg,
+     Gen.Skel.stmts_streamHTTP_readMsg,
      Gen.Skel.conds_streamHTTP_RecvMsg,
+     Gen.Skel.stmts_streamHTTP_RecvMsg,
      Gen.Skel.conds_streamHTTP_decodeRequestArgs,
+     Gen.Skel.stmts_streamHTTP_decodeRequestArgs,
      Gen.Skel.conds_streamGRPC_RecvMsg,
+     Gen.Skel.stmts_streamGRPC_RecvMsg,
      Gen.Skel.conds_streamGRPC_SendMsg,
+     Gen.Skel.stmts_streamGRPC_SendMsg,
      Gen.Skel.conds_webWriter_writeTrailer,
+     Gen.Skel.stmts_webWriter_writeTrailer,
      Gen.Skel.conds_webWriter_flushWithTrailer,
+     Gen.Skel.stmts_webWriter_flushWithTrailer,
      Gen.Skel.conds_streamWS_RecvMsg,
+     Gen.Skel.stmts_streamWS_RecvMsg,
      Gen.Skel.conds_streamWS_SendMsg,
+     Gen.Skel.stmts_streamWS_SendMsg,
      Gen.Skel.conds_CodecProto_ReadNext,
+     Gen.Skel.stmts_CodecProto_ReadNext,
      Gen.Skel.conds_CodecJSON_ReadNext,
-     Gen.Skel.conds_codecHTTPBody_ReadNext)
+     Gen.Skel.stmts_CodecJSON_ReadNext,
+     Gen.Skel.conds_codecHTTPBody_ReadNext,
+     Gen.Skel.stmts_codecHTTPBody_ReadNext,
+     Gen.Skel.conds_createConnHandler,
+     Gen.Skel.stmts_createConnHandler)
   = (Expected.C06.conds_streamHTTP_readMsg,
+     Expected.C06.stmts_streamHTTP_readMsg,
      Expected.C06.conds_streamHTTP_RecvMsg,
+     Expected.C06.stmts_streamHTTP_RecvMsg,
      Expected.C06.conds_streamHTTP_decodeRequestArgs,
+     Expected.C06.stmts_streamHTTP_decodeRequestArgs,
      Expected.C06.conds_streamGRPC_RecvMsg,
+     Expected.C06.stmts_streamGRPC_RecvMsg,
      Expected.C06.conds_streamGRPC_SendMsg,
+     Expected.C06.stmts_streamGRPC_SendMsg,
      Expected.C06.conds_webWriter_writeTrailer,
+     Expected.C06.stmts_webWriter_writeTrailer,
      Expected.C06.conds_webWriter_flushWithTrailer,
+     Expected.C06.stmts_webWriter_flushWithTrailer,
      Expected.C06.conds_streamWS_RecvMsg,
+     Expected.C06.stmts_streamWS_RecvMsg,
      Expected.C06.conds_streamWS_SendMsg,
+     Expected.C06.stmts_streamWS_SendMsg,
      Expected.C06.conds_CodecProto_ReadNext,
+     Expected.C06.stmts_CodecProto_ReadNext,
      Expected.C06.conds_CodecJSON_ReadNext,
-     Expected.C06.conds_codecHTTPBody_ReadNext) := rfl
+     Expected.C06.stmts_CodecJSON_ReadNext,
+     Expected.C06.conds_codecHTTPBody_ReadNext,
+     Expected.C06.stmts_codecHTTPBody_ReadNext,
+     Expected.C06.conds_createConnHandler,
+     Expected.C06.stmts_createConnHandler) := rfl
 
 /-- HTTP, length-delimited protobuf: exactly the client's messages in order, then a clean end. -/
 theorem http_recv_sequence_proto (limit : Nat) (ms : List Bytes) (spares : List Nat) (s : HS)
